@@ -56,6 +56,9 @@ def queries(tier):
     L.append((C("fa", V(0)), 1, 3))
     # a dynamic-fact-like structure unification: an early argument binds a variable, a later one is deep
     L.append((C("wide", V(0), s(40)), 1, 0))
+    # against a DYNAMIC fact item(done, _) (asserted before the query): facts are matched by unify_arrays,
+    # argument by argument, and the second argument needs depth while the first has already bound X
+    L.append((C("item", V(0), s(60)), 1, 0))
     return L
 
 
@@ -77,6 +80,8 @@ def record_runs(scn, refs, tier, seed):
     def one(goal, qnv, L, raise_at, probe=False, nest=False):
         yp = real.YP()
         yp.load_script_from_string(code)
+        if goal["n"] == "item":
+            yp.assert_fact(yp.atom("item"), [yp.atom("done"), yp.variable()])
         env = {}
         vs = [real.build(yp, {"t": "v", "id": i}, env) for i in range(qnv)]
         args = [real.build(yp, a, env) for a in goal.get("a", [])]
@@ -154,7 +159,8 @@ def record_runs(scn, refs, tier, seed):
             need = md
         # infinite searches: keep the limit low enough that the result stays within the known prefix
         hi = d0 + (need + 40 if need is not None else 60)
-        limits = list(range(d0 + 5, hi, step))
+        # structure unifications (several argument pairs, an early one binding a variable): every limit
+        limits = list(range(d0 + 5, hi, 1 if goal["n"] in ("wide", "app", "item") else step))
         rps = [0, 1, 2, max(len(answers), 1)]
         for L in limits:
             for ra in (rps if tier == "thorough" else [rps[(L // step) % len(rps)], 0]):
@@ -196,7 +202,8 @@ def family(chk, tier, seed, only=None):
         steps.append([{"op": "solve", "e": 1, "r": i + 1, "goal": g, "qnv": qnv, "k": k}])
     scns = []
     for i, (g, qnv, k) in enumerate(qs):
-        scns.append({"scripts": {"P": program()}, "steps": [steps[0], [{"op": "solve", "e": 1, "r": 1, "goal": g, "qnv": qnv, "k": k}]], "keys": []})
+        pre = [[{"op": "assert", "e": 1, "term": C("item", A("done"), V(0)), "atEnd": True, "r": 0}]] if g["n"] == "item" else []
+        scns.append({"scripts": {"P": program()}, "steps": [steps[0]] + pre + [[{"op": "solve", "e": 1, "r": 1, "goal": g, "qnv": qnv, "k": k}]], "keys": []})
     recs, results = chk.machine_family("reference-searches", scns, max_steps=None)
     by_id = {r["id"]: r for r in recs}
     refs = []
